@@ -207,6 +207,9 @@ TABLES = [
     [(P.plus('a'), 'str'), (P.EOFM, 'cb_true')],
     [(P.TMOM, 'str'), (P.lit('bb'), 'cb_none'), (P.EOFM, 'cb_true')],
     [(P.lit('n'), 'cb_none'), (P.lit('ab'), 'cb_str')],
+    # the same pattern listed twice: the first entry has priority (an override put in front of a defaults table)
+    [(P.lit('b'), 'cb_none'), (P.lit('b'), 'str')],
+    [(P.lit('ab'), 'str'), (P.lit('a'), 'cb_none'), (P.lit('ab'), 'cb_true')],
 ]
 
 
@@ -251,8 +254,9 @@ def run(ctx):
         for table in TABLES:
             if not terminates(program, table):
                 continue
+            dup = bool(table) and len(set(json.dumps(p, sort_keys=True) for p, r in table)) < len(table)
             for chunk in (1, 2, 100):
-                for mode in (('list', 'dict') if table else ('none',)):
+                for mode in ((('list',) if dup else ('list', 'dict')) if table else ('none',)):
                     for mapping in (P.ASCII, P.UNI):
                         traces.append(run_case(mapping, program, chunk, table, mode, tid, withexit=bool(tid % 2)))
                         tid += 1
@@ -267,6 +271,12 @@ def run(ctx):
             for tmo in (None, -1, LONG):
                 traces.append(run_case(P.ASCII, program, 2, table, 'list' if table else 'none', tid, withexit=False, timeout=tmo))
                 tid += 1
+    # large output delivered in full maxread-sized (2000) reads, the event pattern straddling a read boundary
+    for off in (1998, 1999, 2000, 3999):
+        filler = 'b' * off
+        program = [('print', filler + 'aab' + 'b' * 2500), ('read',), ('print', 'ba'), ('exit', 0)]
+        traces.append(run_case(P.ASCII, program, 100000, [(P.lit('aab'), 'str')], 'list', tid, withexit=True))
+        tid += 1
     # random larger dialogues
     for i in range(300 if ctx.quick() else 6000):
         prog = []
@@ -283,8 +293,9 @@ def run(ctx):
         table = rng.choice(TABLES)
         if not terminates(prog, table):
             continue
+        dup = bool(table) and len(set(json.dumps(p, sort_keys=True) for p, r in table)) < len(table)
         traces.append(run_case(rng.choice([P.ASCII, P.UNI]), prog, rng.choice([1, 2, 3, 100]), table,
-                               rng.choice(['list', 'dict']) if table else 'none', tid, withexit=bool(tid % 2)))
+                               ('list' if dup else rng.choice(['list', 'dict'])) if table else 'none', tid, withexit=bool(tid % 2)))
         tid += 1
     # exit status reported by run(withexitstatus) on the dialogue child
     for t in traces:
